@@ -90,14 +90,14 @@ Fixpoint dims_eqb (a b : list Z) : bool :=
 
 (* exact value of a finite binary64 pattern *)
 Definition q_of_f64 (p : N) : Q :=
-  let sign := p / 2 ^ 63 in
-  let ex := (p / 2 ^ 52) mod 2048 in
-  let m := p mod 2 ^ 52 in
-  let M := Z.of_N (if ex =? 0 then m else 2 ^ 52 + m)%N in
+  let sign := if N.testbit p 63 then 1%N else 0%N in
+  let ex := N.land (N.shiftr p 52) 2047 in
+  let m := N.land p 4503599627370495 in
+  let M := Z.of_N (if ex =? 0 then m else p52 + m)%N in
   let E := (Z.of_N (N.max ex 1) - 1075)%Z in
-  let a := if (0 <=? E)%Z then Qmake (M * 2 ^ E)%Z 1 else Qmake M (Z.to_pos (2 ^ (- E))%Z) in
+  let a := if (0 <=? E)%Z then Qmake (Z.shiftl M E) 1 else Qmake M (Z.to_pos (Z.shiftl 1 (- E))) in
   if (sign =? 0)%N then a else Qopp a.
-Definition is_finite64 (p : N) : bool := negb (((p / 2 ^ 52) mod 2048 =? 2047)%N).
+Definition is_finite64 (p : N) : bool := negb ((N.land (N.shiftr p 52) 2047 =? 2047)%N).
 
 Definition q_close (a b tol : Q) : bool := Qle_bool (Qabs (a - b)%Q) (tol * Qabs b)%Q.
 Fixpoint vals_close (su : Q) (x : list N) (sv : Q) (y : list N) (tol : Q) : bool :=
